@@ -15,6 +15,9 @@ TRUSTED_BASE = ["Spec/Digest.lean: enzyme geometries typed from REBASE (GGTCTC(1
                 "Go regexp on a literal site = leftmost non-overlapping scan (modelled; corresponded on every case)",
                 "ASCII input"]
 ASSUMPTIONS = ["inputs are ASCII",
+               "the quantifier is sequences of bases: a stored string containing anything but letters (digits, blanks, punctuation) is outside it "
+               "and is kept as a correspondence probe (judge skip, drift only); letters other than ACGT (N, IUPAC codes, U) are inside; "
+               "non-directional digestion is outside the property (the statement speaks of directional digestion): correspondence drift only",
                "coincident cuts: with overhang 0 a forward and a backward-pointing site can cut the same bond; the property statement does not "
                "determine the result there (is the empty stretch a fragment? does a bond cut from both sides end an earlier forward cut's stretch?), "
                "and its quantifier speaks of paired cuts that are APART, so such layouts are read as outside the quantifier: judged skip, "
